@@ -38,13 +38,16 @@ def new_testcase(kind: str, cut=None):
     return t
 
 
-def real_load(kind: str, data: bytes, cut=None, ext=".txt"):
-    """returns ('ok', testcase) | ('err', tag, exc)"""
+def real_load(kind: str, data: bytes, cut=None, ext=".txt", preload=None):
+    """returns ('ok', testcase) | ('err', tag, exc); `preload`: bytes the same object loads first (a re-used object)"""
     from lithium.util import LithiumError
 
     p = scratch() / f"in-{os.getpid()}{ext}"
-    p.write_bytes(data)
     t = new_testcase(kind, cut)
+    if preload is not None:
+        p.write_bytes(preload)
+        t.load(p)
+    p.write_bytes(data)
     try:
         t.load(p)
     except LithiumError as exc:
